@@ -191,6 +191,12 @@ func runViews() {
 	rng(fmt.Sprintf("views: %d source kinds x all %d sizes, six-operation sub-menu {crop(1,1,w-2,h-2), crop(0,0,w-1,h), invert, rotate, crop(1,0,w-1,h), crop(0,1,w,h-1)}, all histories of length <= %d", len(kinds), len(all)/len(kinds), d3), len(all),
 		func(i int) string { return fmt.Sprint(all[i]) },
 		func(l *mc.Local, i int) { search(l, all[i].kind, all[i].w, all[i].h, d3, false) })
+	// size ladder: fast paths chosen by a size threshold (tiles, strides, buffers) sit at powers of two
+	ladder := roots([]size{{255, 257}, {256, 256}, {258, 259}, {300, 290}, {513, 260}, {1025, 3}, {3, 1025}})
+	dl := chk.Pick(2, 3)
+	rng(fmt.Sprintf("views: %d source kinds x ladder sizes {255x257,256x256,258x259,300x290,513x260,1025x3,3x1025}, six-operation sub-menu, all histories of length <= %d", len(kinds), dl), len(ladder),
+		func(i int) string { return fmt.Sprint(ladder[i]) },
+		func(l *mc.Local, i int) { search(l, ladder[i].kind, ladder[i].w, ladder[i].h, dl, false) })
 	var tiny []size
 	nt := chk.Pick(5, 7)
 	for w := 1; w <= nt; w++ {
